@@ -187,4 +187,12 @@ def detProcess (fftc ifft : Array (Cx α) → Array (Cx α)) (s : DetState α) (
     | none => .ok (s', none)
     | some (i, ci) => .ok (s', some ⟨i, r.1.extract czero, Fn.sqrt ci⟩)
 
+/-- `PreambleDetectorImpl::reset()`: `_pow_flt.process(zeros(frame_len())); _corr_flt.process(zeros(frame_len())); _delay.reset();`
+(one frame of zeros through both filters — `FftFilter::process(const arr_real&)` is `process(complex(x))` —, the delay line cleared;
+the position `_pos` of the moving average and a rounding residue of its accumulator survive, exactly as in the code) -/
+def detReset (fftc ifft : Array (Cx α) → Array (Cx α)) (s : DetState α) : DetState α :=
+  let p := maProcessR s.pow (Array.replicate s.frameLen (Fn.ofNat 0))
+  let c := fftProcessC fftc ifft s.corr (Array.replicate s.frameLen czero)
+  { corr := c.1, pow := p.1, thr2 := s.thr2, delay := CDelay.init czero s.delay.buf.size }
+
 end Dsp.Detect
